@@ -2,31 +2,9 @@
    reference map's "expired keys leave in (deadline, channel, key) order". *)
 From Coq Require Import List NArith ZArith Bool Lia Permutation Sorting.Sorted.
 From Cfg Require Import Model.MapHub Model.MapSpec Proofs.MapBase Proofs.MapRefine Proofs.MapRefine2
-  Proofs.MapExpiry Proofs.MapExpiry2.
+  Proofs.MapReads Proofs.MapExpiry Proofs.MapExpiry2.
 Import ListNotations.
 Open Scope N_scope.
-
-(* ------------------------------------------------- well-formed spec states *)
-Definition WFs (s : sstate) : Prop :=
-  NoDup (map fst (ss_chans s)) /\
-  forall i sc, In (i, sc) (ss_chans s) -> NoDup (map fst (sc_map sc)).
-
-Lemma WFs0 : WFs sstate0.
-Proof. split; simpl; [constructor | intros ? ? []]. Qed.
-
-Lemma aset_In_cases : forall {K V} (eqb : K -> K -> bool) (m : list (K * V)) k v x,
-  In x (aset eqb m k v) -> x = (k, v) \/ In x m.
-Proof. intros. eapply aset_In_weak; eauto. Qed.
-
-Lemma WFs_set : forall s ch c, WFs s -> NoDup (map fst (sc_map c)) -> WFs (s_set s ch c).
-Proof.
-  intros s ch c (W1 & W2) ND. unfold WFs, s_set; simpl. split.
-  - apply (aset_nodup N.eqb N_eqb_eq'); auto.
-  - intros i sc HI. apply aset_In_cases in HI as [E|HI]; [inversion E; subst; auto | eauto].
-Qed.
-
-Lemma WFs_get : forall s ch c, WFs s -> s_get s ch = Some c -> NoDup (map fst (sc_map c)).
-Proof. intros s ch c (W1 & W2) G. apply (W2 ch). apply (aget_In N.eqb N_eqb_eq'). exact G. Qed.
 
 (* ------------------------------------------------------- entries of a state *)
 Definition chan_items (i : N) (m : list (key * entry)) : list (ck * N) :=
@@ -57,7 +35,7 @@ Proof.
   apply in_map_iff in HM as ([k' e] & E & HK). simpl in E. inversion E; subst.
   exists e. split; auto. unfold s_entry, s_get.
   rewrite (In_aget_nodup N.eqb N_eqb_eq' _ _ _ W1 HI).
-  apply (In_aget_nodup key_eqb key_eqb_eq); eauto.
+  destruct (W2 _ _ HI) as (ND & _). apply (In_aget_nodup key_eqb key_eqb_eq); auto.
 Qed.
 
 (* removing a key of one channel filters the entry list *)
@@ -148,12 +126,15 @@ Proof.
   rewrite HE. rewrite <- EM, HE. rewrite EE, N.eqb_refl. rewrite ES, <- ET.
   assert (NN : c_state c <> []) by (eapply aget_some_nonnil; eauto).
   specialize (EO2 NN).
-  pose proof (WFs_get _ _ _ WF G') as NDM.
-  assert (WF' : forall log, WFs (s_bcast (s_set s (ev_ch ev) (mkSC (sc_epoch sc) (adel key_eqb (c_state c) (ev_key ev)) log))
+  destruct (WFs_get _ _ _ WF G') as (NDM & OFM).
+  assert (OF1 : forall tg, offs_from 0 (sc_log sc ++ [mkPub (ev_key ev) (N.of_nat (length (sc_log sc)) + 1) 0 tg true 0%Z])).
+  { intro tg. apply offs_from_app; auto. }
+  assert (WF' : forall log, offs_from 0 log -> WFs (s_bcast (s_set s (ev_ch ev) (mkSC (sc_epoch sc) (adel key_eqb (c_state c) (ev_key ev)) log))
                      (mkBc (ev_ch ev) (mkPub (ev_key ev) (if 0 <? size_of cfgs (ev_ch ev) then N.of_nat (length (sc_log sc)) + 1 else 0) 0 (ev_tags ev) true 0%Z)
                            (s_pos (mkSC (sc_epoch sc) (adel key_eqb (c_state c) (ev_key ev)) log)) false None))).
-  { intro log. destruct (WFs_set s (ev_ch ev) (mkSC (sc_epoch sc) (adel key_eqb (c_state c) (ev_key ev)) log) WF) as (A & B).
+  { intros log OL. destruct (WFs_set s (ev_ch ev) (mkSC (sc_epoch sc) (adel key_eqb (c_state c) (ev_key ev)) log) WF) as (A & B).
     - simpl. rewrite EM. apply adel_nodup. assumption.
+    - exact OL.
     - split; assumption. }
   assert (ENT : forall log b, s_entries (s_bcast (s_set s (ev_ch ev) (mkSC (sc_epoch sc) (adel key_eqb (c_state c) (ev_key ev)) log)) b) =
                       filter (fun it => negb (ck_eqb (fst it) (ev_ch ev, ev_key ev))) (s_entries s)).
@@ -311,14 +292,15 @@ Lemma WFs_chans_eq : forall s s', ss_chans s' = ss_chans s -> WFs s -> WFs s'.
 Proof. intros s s' E (W1 & W2). unfold WFs. rewrite E. auto. Qed.
 
 Lemma WFs_ensure : forall s ch s1 c, WFs s -> s_ensure s ch = (s1, c) ->
-  WFs s1 /\ NoDup (map fst (sc_map c)) /\ s_get s1 ch = Some c.
+  WFs s1 /\ NoDup (map fst (sc_map c)) /\ offs_from 0 (sc_log c) /\ s_get s1 ch = Some c.
 Proof.
   intros s ch s1 c WF H. unfold s_ensure in H. destruct (s_get s ch) as [c0|] eqn:G.
-  - inversion H; subst. splits; auto. eapply WFs_get; eauto.
+  - inversion H; subst. destruct (WFs_get _ _ _ WF G). splits; auto.
   - inversion H; subst. splits.
-    + apply (WFs_set s ch (mkSC (ss_nep s) [] [])) in WF; [|simpl; constructor].
+    + apply (WFs_set s ch (mkSC (ss_nep s) [] [])) in WF; [|simpl; constructor|simpl; exact I].
       eapply WFs_chans_eq; [|exact WF]. reflexivity.
     + simpl. constructor.
+    + simpl. exact I.
     + unfold s_get; simpl. apply (aget_aset_same N.eqb N_eqb_eq').
 Qed.
 
@@ -335,7 +317,7 @@ Proof.
   destruct (is_ephemeral (cf_mode cf) && (0 <? po_ver o)); [inversion H; subst; auto|].
   destruct (s_idem_get s ch (po_idem o)); [inversion H; subst; auto|].
   destruct (s_ensure s ch) as [s1 c] eqn:EN.
-  destruct (WFs_ensure _ _ _ _ WF EN) as (WF1 & ND & G1).
+  destruct (WFs_ensure _ _ _ _ WF EN) as (WF1 & ND & OF & G1).
   destruct (decide_publish cf (sc_epoch c) k o (aget key_eqb (sc_map c) k)) as [r|].
   - inversion H; subst; clear H.
     destruct r; auto. destruct (aget key_eqb (sc_map c) k); auto.
@@ -343,8 +325,9 @@ Proof.
     apply WFs_set; auto. simpl. apply (aset_nodup key_eqb key_eqb_eq); auto.
   - destruct (if po_ver o =? 0 then match aget key_eqb (sc_map c) k with Some e => (e_ver e, e_vep e) | None => (0, po_vep o) end
               else (po_ver o, po_vep o)) as [ver vep].
-    inversion H; subst; clear H. apply WFs_bcast, WFs_idem_save, WFs_set; auto. simpl.
-    destruct (is_empty k); auto. apply (aset_nodup key_eqb key_eqb_eq); auto.
+    inversion H; subst; clear H. apply WFs_bcast, WFs_idem_save, WFs_set; auto; simpl.
+    + destruct (is_empty k); auto. apply (aset_nodup key_eqb key_eqb_eq); auto.
+    + destruct (has_stream (cf_mode cf)); auto. apply offs_from_app; auto.
 Qed.
 
 Lemma spec_remove_WFs : forall cfgs s ch k o s' u, WFs s -> spec_remove cfgs s ch k o = (s', u) -> WFs s'.
@@ -355,8 +338,11 @@ Proof.
   destruct (s_idem_get s ch (ro_idem o)); [inversion H; subst; auto|].
   destruct (s_get s ch) as [c|] eqn:G; [|inversion H; subst; auto].
   destruct (decide_remove (sc_epoch c) o (aget key_eqb (sc_map c) k)); [inversion H; subst; auto|].
+  destruct (WFs_get _ _ _ WF G) as (ND & OF).
   destruct (aget key_eqb (sc_map c) k); inversion H; subst; auto.
-  apply WFs_bcast, WFs_idem_save, WFs_set; auto. simpl. apply adel_nodup. eapply WFs_get; eauto.
+  apply WFs_bcast, WFs_idem_save, WFs_set; auto; simpl.
+  - apply adel_nodup. exact ND.
+  - destruct (has_stream (cf_mode cf)); auto. apply offs_from_app; auto.
 Qed.
 
 Lemma spec_clear_WFs : forall s ch, WFs s -> WFs (spec_clear s ch).
@@ -372,9 +358,8 @@ Proof.
   intros cfgs s ch since lim rv s' r WF H. unfold spec_read_stream in H.
   destruct (s_get s ch) as [c|] eqn:G.
   - destruct since as [[so se]|].
-    + destruct (negb (se =? 0) && negb (se =? sc_epoch c)); [inversion H; subst; auto|].
-      destruct (negb rv && (N.of_nat (length (sc_log c)) =? so)); inversion H; subst; auto.
-    + destruct (lim =? 0)%Z; inversion H; subst; auto.
+    + destruct (negb (se =? 0) && negb (se =? sc_epoch c)); inversion H; subst; auto.
+    + inversion H; subst; auto.
   - destruct (s_ensure s ch) as [s1 c] eqn:EN. inversion H; subst.
     eapply WFs_ensure; eauto.
 Qed.
@@ -385,7 +370,7 @@ Proof.
   intros cfgs s ch rev cur lim k asc s' r WF H. unfold spec_read_state in H.
   destruct (cfg_of cfgs ch) as [cf|e]; [|inversion H; subst; auto].
   destruct (s_get s ch) as [c|] eqn:G.
-  - destruct (state_pre (sc_map c) (s_pos c) rev lim k); inversion H; subst; auto.
+  - inversion H; subst; auto.
   - destruct (s_ensure s ch) as [s1 c] eqn:EN.
     assert (WFs s1) by (eapply WFs_ensure; eauto).
     destruct rev as [[ro re]|]; [destruct (negb (re =? 0))|]; inversion H; subst; auto.
@@ -405,20 +390,20 @@ Lemma add_pend : forall cf h ch k o h' p pp r tp,
   add cf h ch k o = (h', p, pp, r, tp) -> h_pend h' = h_pend h /\ h_pnow h' = h_pnow h.
 Proof.
   intros cf h ch k o h' p pp r tp H.
-  unfold add, add_ensure, add_keymode, add_commit, stream_add in H.
+  unfold add, add_ensure, add_keymode, add_commit, stream_add, ret_touch, touch_meta, touch_stream, ttl_touch in H.
   dmatch H; inversion H; subst; split; reflexivity.
 Qed.
 
 Lemma hremove_pend : forall cf h ch k o h' p pp r,
   hremove cf h ch k o = (h', p, pp, r) -> h_pend h' = h_pend h /\ h_pnow h' = h_pnow h.
 Proof.
-  intros cf h ch k o h' p pp r H. unfold hremove, stream_add in H.
+  intros cf h ch k o h' p pp r H. unfold hremove, stream_add, ret_touch, touch_meta, touch_stream, ttl_touch in H.
   dmatch H; inversion H; subst; split; reflexivity.
 Qed.
 
 Lemma step_pend : forall cfgs h o h' r,
   step cfgs h o = (h', r) ->
-  match o with OPhase1 | OPhase2 | OSweep => True | _ => h_pend h' = h_pend h /\ h_pnow h' = h_pnow h end.
+  match o with OPhase1 | OPhase2 | OSweep | OExpireStreams | ORemoveChannels => True | _ => h_pend h' = h_pend h /\ h_pnow h' = h_pnow h end.
 Proof.
   intros cfgs h o h' r H. destruct o; simpl in H; auto.
   - unfold publish in H.
@@ -437,8 +422,8 @@ Proof.
     destruct r1; try (inversion H; subst; auto; fail).
     destruct pp; inversion H; subst; auto. simpl. destruct (ro_idem o =? 0); simpl; auto.
   - inversion H; subst. unfold clear. destruct (get_chan h ch); simpl; auto.
-  - unfold read_state, create_chan in H. dmatch H; inversion H; subst; simpl; auto.
-  - unfold read_stream, create_chan in H. dmatch H; inversion H; subst; simpl; auto.
+  - unfold read_state, create_chan, touch_meta, ttl_touch in H. dmatch H; inversion H; subst; simpl; auto.
+  - unfold read_stream, create_chan, touch_meta, ttl_touch in H. dmatch H; inversion H; subst; simpl; auto.
   - inversion H; subst; simpl; auto.
 Qed.
 
@@ -503,7 +488,7 @@ Proof.
   - destruct (read_stream h ch since limit reverse) as [hx u] eqn:E1.
     destruct (spec_read_stream cfgs s ch since limit reverse) as [sx u'] eqn:E2.
     inversion H1; inversion H2; subst.
-    destruct (read_stream_sim _ _ _ _ _ _ _ _ _ _ _ HR E1 E2) as (-> & HR').
+    destruct (read_stream_sim _ _ _ _ _ _ _ _ _ _ _ HR WF E1 E2) as (-> & HR').
     splits; auto. eapply spec_read_stream_WFs; eauto. destruct PD; congruence.
   - inversion H1; inversion H2; subst. splits; auto using advance_sim.
   - destruct (sweep_step_sim cfgs h s HR IV WF PE) as (hx & SX & HR' & WF' & PE').
